@@ -425,6 +425,7 @@ func followRule(r *node, ctx *Ctx) (err error) {
 			}
 		}
 		if ctx.Err != nil {
+			err = ctx.Err
 			return
 		}
 		// Assign to destination.
